@@ -33,10 +33,12 @@ class AggGen:
         if t == T_INT and r < 0.45:
             a = self.g.expr(self.rng.choice(exprgen.ALL_TYPES), d)
             return self.alloc(f'count({a.text})', 'ACount', a.coq, T_INT, 'count(x)')
-        if t in (T_INT, T_DEC, T_BOOL) and r < 0.65:
-            a = self.g.expr(t, d)
-            zero = {'int': '(VInt 0)', 'decimal': '(VDec (mkdec false 0 0))', 'bool': '(VInt 0)'}[t]  # sum(bool) announces int since fix 26ccdff
-            return self.alloc(f'sum({a.text})', f'(ASum {zero})', a.coq, t, f'sum[{t}]')
+        if t in (T_INT, T_DEC) and r < 0.65:
+            # sum(int) -> int, sum(decimal) -> decimal, sum(bool) -> int (counts the TRUE values)
+            ta = T_BOOL if (t == T_INT and self.rng.random() < 0.3) else t
+            a = self.g.expr(ta, d)
+            zero = {'int': '(VInt 0)', 'decimal': '(VDec (mkdec false 0 0))', 'bool': '(VInt 0)'}[ta]
+            return self.alloc(f'sum({a.text})', f'(ASum {zero})', a.coq, t, f'sum[{ta}]')
         a = self.g.expr(t, d)
         fn, tag = self.rng.choice([('first', 'AFirst'), ('last', 'ALast'), ('min', 'AMin'), ('max', 'AMax')])
         return self.alloc(f'{fn}({a.text})', tag, a.coq, t, f'{fn}[{t}]')
@@ -76,12 +78,14 @@ class AggGen:
         return self.expr(t, d)
 
 
-def gen_case(rng):
-    ncols = rng.randint(2, 5)
-    cols = [(n, rng.choice(exprgen.ALL_TYPES)) for n in 'abcde'[:ncols]]
-    null_p = rng.choice([0.0, 0.15, 0.3, 0.5])
-    nrows = rng.choice([0, 1, 2, 3, 5, 8, 12])
-    rows = [tuple(values.gen_value(rng, PY[t], null_p) for _, t in cols) for _ in range(nrows)]
+def gen_case(rng, cols=None, rows=None, force_alias=False, alias_fmt='x{}'):
+    if cols is None:
+        ncols = rng.randint(2, 5)
+        cols = [(n, rng.choice(exprgen.ALL_TYPES)) for n in 'abcde'[:ncols]]
+    if rows is None:
+        null_p = rng.choice([0.0, 0.15, 0.3, 0.5])
+        nrows = rng.choice([0, 1, 2, 3, 5, 8, 12])
+        rows = [tuple(values.gen_value(rng, PY[t], null_p) for _, t in cols) for _ in range(nrows)]
     g = exprgen.Gen(rng, cols, max_depth=2)
     ag = AggGen(rng, g)
     nkeys = rng.choice([0, 1, 1, 2, 2, 3])
@@ -105,8 +109,8 @@ def gen_case(rng):
         vis_keys, hid_keys = [keys[0]], keys[1:]
     targets = []
     for i, (kind, e) in enumerate(visible):
-        alias = f'x{i}' if rng.random() < 0.3 else None
-        targets.append({'kind': kind, 'text': e.text, 'coq': e.coq, 'alias': alias,
+        alias = alias_fmt.format(i) if (force_alias or rng.random() < 0.3) else None
+        targets.append({'kind': kind, 'text': e.text, 'coq': e.coq, 'alias': alias, 'type': e.type,
                         'bare': e.text in [c for c, _ in cols]})
     implicit = (not hid_keys) and aggs and rng.random() < 0.35
     group_items = []
@@ -160,7 +164,7 @@ def gen_case(rng):
 
 def statement(c):
     tl = ', '.join(t['text'] + (f' AS {t["alias"]}' if t['alias'] else '') for t in c['targets'])
-    s = 'SELECT ' + ('DISTINCT ' if c['distinct'] else '') + tl + ' FROM #t'
+    s = 'SELECT ' + ('DISTINCT ' if c['distinct'] else '') + tl + ' FROM ' + c.get('from_sql', '#t')
     if c['where']:
         s += ' WHERE ' + c['where'][0]
     if not c['implicit']:
@@ -194,6 +198,10 @@ def run_impl(c):
 
 
 def model_expr(c):
+    return f'exec_out {query_coq(c)} {values.rows_to_coq(c["rows"])}'
+
+
+def query_coq(c):
     targets = [t['coq'] for t in c['targets']]
     nvis = len(targets)
     group = [i for i, t in enumerate(c['targets']) if t['kind'] == 'key']
@@ -221,7 +229,7 @@ def model_expr(c):
          + '; q_order := ' + ('None' if spec is None else '(Some ' + clist([cpair(f'{i}%nat', cbool(d)) for i, d in spec]) + ')')
          + '; q_vis := ' + clist([f'{i}%nat' for i in range(nvis)])
          + '; q_distinct := ' + cbool(c['distinct']) + '; q_limit := ' + copt(c['limit'], cZ) + ' |}')
-    return f'exec_out {q} {values.rows_to_coq(c["rows"])}'
+    return q
 
 
 def model_many(cases, tag='c02'):
